@@ -158,7 +158,7 @@ claim("C05",
       "translate_cid, the computation of the inferred name, HashMap / HashSet / NameGenerator are shims by contract; the iteration of retain() and "
       "the search of the Select in the CTE pipeline are dropped by the slices.")
 
-prop("C10", ["resolve_guards", "name_lookup", "lineage_except"],
+prop("C10", ["resolve_guards", "name_lookup", "lineage_except", "frame_decls"],
      select={"lineage_except": lambda n: n.split(".", 1)[1] in ("IC1", "IC2", "LE1", "LE2", "LE3")},
      not_covered="NS_INFER declarations (what resolve_ident_fallback infers), insert_frame (which columns a frame declares after select / "
                  "aggregate / group), resolve_ident_fallback inference, validate_expr_type (scalar where a relation is required), lowering's "
@@ -169,7 +169,7 @@ claim("C10",
       "Module::lookup returns the direct hits PLUS the hits through every redirect, for any number of redirects and whatever the direct lookup found "
       "(LK1, loop invariant LK2) - so a second candidate in another relation in scope is never missed; apply_args_to_closure returns Err whenever a named "
       "argument is not consumed by a named parameter of the callee (AA1-2); fold_function returns Err for more positional arguments than parameters, a "
-      "function value for fewer, and evaluates only a saturated call (FA1-3). what one path finds in one module (lookup_in, whole function; the recursion into sub-modules goes through the contract of Module::lookup): `p.rest` finds the members `rest` of the declaration p - of a nested module what its own lookup finds, of layered modules what the INNERMOST layer that finds anything finds (loop invariant over the reversed stack: shadowing), of anything else nothing - qualified with p; an undeclared name finds nothing; a single declared name finds itself or its `_self` (name_lookup LI1-6; Ident::pop_front PF1). `select !{..}` and the inference of a column of a wildcard table compare names exactly (lineage_except LE1-3, IC1-2). NOT proved: that an out-of-frame column has zero candidates (which declarations a frame inserts), relation / "
+      "function value for fewer, and evaluates only a saturated call (FA1-3). what one path finds in one module (lookup_in, whole function; the recursion into sub-modules goes through the contract of Module::lookup): `p.rest` finds the members `rest` of the declaration p - of a nested module what its own lookup finds, of layered modules what the INNERMOST layer that finds anything finds (loop invariant over the reversed stack: shadowing), of anything else nothing - qualified with p; an undeclared name finds nothing; a single declared name finds itself or its `_self` (name_lookup LI1-6; Ident::pop_front PF1). `select !{..}` and the inference of a column of a wildcard table compare names exactly (lineage_except LE1-3, IC1-2). what one column of a frame declares: a named column its own name as that column, a star only the `_infer` placeholder of an input that exists in the frame, an unnamed column nothing - every other name untouched (frame_decls FD1-3). NOT proved: that an out-of-frame column has zero candidates (which declarations a frame inserts), relation / "
       "scalar confusion.",
       "HashSet<Ident> is a shim with a ghost set view; in resolve_guards lookup_in is external (it is under contract in name_lookup, where Module::lookup is external: the mutual recursion is cut at the contracts, its termination is not proved); resolve_ident_wildcard, resolve_ident_fallback, ambiguous_error, expr_of_func are "
       "external; the drain loop over named parameters is replaced by its contract (stated in the evidence).")
@@ -231,7 +231,7 @@ def _safety(name):
 
 
 _ALL_UNITS = ["take_range", "sort_take", "split_order", "window_frame", "dialect_select", "ident_quote", "ids_names", "toposort", "rq_tables",
-              "select_shape", "span_units", "sql_prec", "prql_prec", "literals", "set_ops", "desugar", "resolve_guards", "lex_strings", "limit_clause", "static_eval", "operator_tpl", "rel_names", "lower_cols", "vec_utils", "group_take", "flatten_sort", "star_exclude", "std_arity", "limit_select", "rq_shape", "star_cols", "func_env", "json_lits", "cte_define", "type_meet", "fmt_strings", "concat_ops", "sstring_query", "sstring_cols", "lineage_except", "sort_infer", "setop_pairs", "setops_reach", "tuple_unpack", "resolver_unwraps", "name_lookup"]
+              "select_shape", "span_units", "sql_prec", "prql_prec", "literals", "set_ops", "desugar", "resolve_guards", "lex_strings", "limit_clause", "static_eval", "operator_tpl", "rel_names", "lower_cols", "vec_utils", "group_take", "flatten_sort", "star_exclude", "std_arity", "limit_select", "rq_shape", "star_cols", "func_env", "json_lits", "cte_define", "type_meet", "fmt_strings", "concat_ops", "sstring_query", "sstring_cols", "lineage_except", "sort_infer", "setop_pairs", "setops_reach", "tuple_unpack", "resolver_unwraps", "name_lookup", "frame_decls"]
 
 
 def _c12_split_order(n):
